@@ -26,6 +26,8 @@ type gen struct {
 	outbox []M // abstract wire messages observed in MessageSent events
 	inbox  []M // receive messages that were accepted (for replays)
 	retry  []M // receive messages that were rejected (users retry them later)
+	again  M   // the transaction that was just rejected (users often resubmit at once)
+	queue  []M // a scripted scenario in progress (pause / transfer / unpause / same transfer again ...)
 }
 
 func (g *gen) pick(xs []string) string { return xs[g.r.Intn(len(xs))] }
@@ -297,7 +299,66 @@ func (g *gen) newHolder() string {
 }
 
 // next returns the next transaction: usually one message, sometimes several messages in one transaction
+// honestAtt: what the attestation service would sign in the current state (no adversarial deviation)
+func (g *gen) honestAtt() M {
+	keys := g.enabledKeys()
+	t := geti(g.st, "threshold")
+	sigs := []any{}
+	if t >= 1 && t <= len(keys) {
+		for _, k := range keys[:t] {
+			sigs = append(sigs, M{"k": k, "over": "this", "enc": "v01"})
+		}
+	}
+	return M{"sigs": sigs, "pad": 0}
+}
+
+// scenario: a transfer that is blocked by a pause and submitted again, unchanged, after the unpause
+func (g *gen) scenario() []M {
+	var d string
+	var tok, sender M
+	for _, x := range arr(g.st, "pairs") {
+		xm := x.(map[string]any)
+		for _, y := range arr(g.st, "msgrs") {
+			ym := y.(map[string]any)
+			if gets(xm, "d") == gets(ym, "d") && gets(xm, "denom") != "OTHER" {
+				d, tok, sender = gets(xm, "d"), getm(xm, "t"), getm(ym, "addr")
+			}
+		}
+	}
+	pauser, _ := g.st["pauser"].(string)
+	if d == "" || len(pauser) != 2 {
+		return nil
+	}
+	user := g.pick(accts)
+	wire := M{"k": "msg", "ver": 0, "src": d, "dst": "NOBLE", "nonce": 100 + g.r.Intn(400), "sender": sender, "rcpt": pad("MODULE"), "caller": zero32,
+		"body": M{"k": "burn", "ver": 0, "tok": tok, "rcpt": pad(g.pick(accts)), "amt": 1 + g.r.Intn(3), "sender": pad("x2")}}
+	recv := func() M { return M{"type": "ReceiveMessage", "from": user, "wire": wire, "att": g.honestAtt()} }
+	flag := g.pick([]string{"BurningAndMinting", "SendingAndReceivingMessages"})
+	return []M{{"type": "Pause" + flag, "from": pauser}, recv(), {"type": "Unpause" + flag, "from": pauser}, recv(), recv()}
+}
+
 func (g *gen) next() (M, []bool) {
+	if len(g.queue) > 0 {
+		m := g.queue[0]
+		g.queue = g.queue[1:]
+		if gets(m, "type") == "ReceiveMessage" {
+			m["att"] = g.honestAtt()
+		}
+		return m, []bool{true, true, true}
+	}
+	if g.p(0.02) {
+		if sc := g.scenario(); sc != nil {
+			g.queue = sc[1:]
+			return sc[0], []bool{true, true, true}
+		}
+	}
+	if g.again != nil {
+		m := g.again
+		g.again = nil
+		if g.p(0.5) { // immediate resubmission of a rejected transfer, this time with a cooperative ledger
+			return m, []bool{true, true, true}
+		}
+	}
 	if g.p(0.07) {
 		k := 2 + g.r.Intn(2)
 		var ms []any
@@ -443,8 +504,14 @@ func (g *gen) absorb(ev M) {
 	obs := getm(ev, "obs")
 	g.st = getm(obs, "post")
 	if gets(obs, "res") != "ok" {
-		if m := getm(ev, "msg"); gets(m, "type") == "ReceiveMessage" && len(g.retry) < 20 {
-			g.retry = append(g.retry, m)
+		m := getm(ev, "msg")
+		if t := gets(m, "type"); t == "ReceiveMessage" || t == "DepositForBurn" || t == "DepositForBurnWithCaller" {
+			if len(arr(obs, "calls")) > 0 { // it got as far as the ledger
+				g.again = m
+			}
+			if t == "ReceiveMessage" && len(g.retry) < 20 {
+				g.retry = append(g.retry, m)
+			}
 		}
 		return
 	}
